@@ -668,6 +668,15 @@ def check_src_case(ctx, descr, geo, arr, mk, src, reqs, pending):
         if descr['n'] > 1 and sbs != abs(F(descr['slice_spacing'])):
             ctx.fail(descr, {'what': 'SpacingBetweenSlices recorded for a regular source stack is not its spacing',
                              'stored': None if sbs is None else float(sbs)}, site='stored-measures')
+        # L1 against the model: recorded positions / orientation / spacing incl. the inferred slice spacing
+        src_hint = abs(F(descr['slice_spacing'])) if descr['kind'] == 'multiframe' else None
+        add_pending(ctx, reqs, pending,
+                    ('storeAligned', {'iop': [rstr(x) for x in rowcos + colcos], 'ps': [rstr(x) for x in ps],
+                                      'src_hint': None if src_hint is None else rstr(src_hint),
+                                      'all_pos': [[rstr(x) for x in p] for p in positions], 'kept': list(included)}),
+                    dict(descr, what='stored positions/orientation/measures (aligned)', layer='L1'),
+                    ('ok', {'pos': [[rstr(x) for x in p] for p in sorted(stored_pos)], 'iop': [rstr(x) for x in iop],
+                            'ps': [rstr(x) for x in psx], 'sbs': rstr(sbs) if sbs is not None else None}))
     stg, geom = _fetch(seg.get_volume_geometry)
     if stg != 'ok' or geom is None:
         ctx.fail(descr, f'get_volume_geometry failed: {geom}', site='get_volume_geometry')
